@@ -97,7 +97,8 @@ func CheckConcurrent(run *report.Run, propID string, nCases int) error {
 				if i%2 == 1 {
 					f = strict
 				}
-				ws.Filter(corsOf(f, cont).Filter)
+				cc := corsOf(f, cont) // a variable: the method value works for a value and for a pointer receiver alike
+				ws.Filter(cc.Filter)
 				for _, r := range s.Routes {
 					b := routing.RouteBuilder(ws, s, r)
 					b.To(func(req *restful.Request, resp *restful.Response) { resp.WriteHeader(200) })
